@@ -626,4 +626,54 @@ theorem C12_composed_grad (Fs : List (Filt ℝ)) (n : Nat) (y : Nat → Nat → 
   simp only [Comp.val, Comp.presort, Comp.grad]
   exact compValFrom_hasDerivAt n y s r k Fs 0 (Nat.zero_le _) (by simpa [Comp.T] using hk) hg
 
+/-! ## `sort_times` never touches a shared measurement array -/
+
+/-- `sort_times` leaves every existing array as it was — the caller's array and the data of every
+    sibling filter built from it — and the sorted filter refers to a new array holding
+    `observations[..., order]` -/
+theorem C12_sort_times_keeps_shared_data (st st' : ObsStore ℝ) (F F' : FiltRef) (ord : List Nat)
+    (h : sortTimesRef st F ord = .ok (st', F')) :
+    (∀ i, i < st.length → st'[i]? = st[i]?) ∧
+    (∀ H : FiltRef, H.ref < st.length → H.deref st' = H.deref st) ∧
+    ∃ G G', F.deref st = some G ∧ G.sortTimes ord = .ok G' ∧ F'.deref st' = some G' := by
+  unfold sortTimesRef at h
+  cases hG : F.deref st with
+  | none => simp only [hG] at h; cases h
+  | some G =>
+    simp only [hG] at h
+    cases hs : G.sortTimes ord with
+    | error e => simp only [hs] at h; cases h
+    | ok G' =>
+      simp only [hs, Except.ok.injEq, Prod.mk.injEq] at h
+      obtain ⟨rfl, rfl⟩ := h
+      have hold : ∀ i, i < st.length → (st ++ [G'.obs])[i]? = st[i]? :=
+        fun i hi => List.getElem?_append_left hi
+      refine ⟨hold, fun H hH => by simp only [FiltRef.deref, hold H.ref hH], G, G', rfl, hs, ?_⟩
+      -- the sorted filter keeps its class and shape
+      have hshape : G'.kind = F.kind ∧ G'.m = F.m ∧ G'.R = F.R ∧ G'.T = F.T := by
+        unfold FiltRef.deref at hG
+        cases ho : st[F.ref]? with
+        | none => simp [ho] at hG
+        | some o =>
+          simp only [ho, Option.map_some, Option.some.injEq] at hG
+          subst hG
+          unfold Filt.sortTimes at hs
+          split_ifs at hs
+          simp only [Except.ok.injEq] at hs
+          subst hs
+          exact ⟨rfl, rfl, rfl, rfl⟩
+      obtain ⟨h1, h2, h3, h4⟩ := hshape
+      simp only [FiltRef.deref, List.getElem?_concat_length, Option.map_some, ← h1, ← h2, ← h3, ← h4]
+
+/-- what an in-place assignment (NOT chi) would do: a sibling filter that was never sorted sees other
+    measurements.  One individual, one observable, two times, measurement `j` at time `j`. -/
+theorem C12_sort_times_inplace_counterexample :
+    let st : ObsStore ℝ := [fun _ _ j => some (j : ℝ)]
+    let F : FiltRef := ⟨.gauss, 1, 1, 2, 0⟩
+    let H : FiltRef := ⟨.gkde, 1, 1, 2, 0⟩
+    ∃ st' F' G G', sortTimesRefInPlace st F [1, 0] = .ok (st', F') ∧
+      H.deref st = some G ∧ H.deref st' = some G' ∧ G.obs 0 0 0 = some 0 ∧ G'.obs 0 0 0 = some 1 := by
+  intro st F H
+  simp [sortTimesRefInPlace, FiltRef.deref, Filt.sortTimes, hasDup, st, F, H]
+
 end ChiModel
